@@ -222,7 +222,23 @@ def _getlines_exempt(f: Func, bounds: "Bounds", s: ast.Subscript) -> str:
                             return emark(e.body) and emark(e.orelse)
                         if isinstance(e, ast.BinOp) and isinstance(e.op, ast.Add) and isinstance(e.right, ast.Constant) and e.right.value == 1:
                             return emark(e.left)
-                        return isinstance(e, ast.Subscript) and isinstance(e.value, ast.Attribute) and e.value.attr == "eMarks"
+                        if isinstance(e, ast.Subscript) and isinstance(e.value, ast.Attribute) and e.value.attr == "eMarks":
+                            return True
+                        if isinstance(e, ast.Subscript) and isinstance(e.value, ast.Name):
+                            # eMarks = self.eMarks (also as a component of a tuple assignment): a local that only holds the table
+                            vals_ = []
+                            for n2 in own_nodes(f.node):
+                                if isinstance(n2, ast.Assign):
+                                    for t2 in n2.targets:
+                                        if isinstance(t2, ast.Name) and t2.id == e.value.id:
+                                            vals_.append(n2.value)
+                                        elif isinstance(t2, (ast.Tuple, ast.List)):
+                                            for k2, x2 in enumerate(t2.elts):
+                                                if isinstance(x2, ast.Name) and x2.id == e.value.id:
+                                                    vals_.append(n2.value.elts[k2] if isinstance(n2.value, (ast.Tuple, ast.List))
+                                                                 and len(n2.value.elts) == len(t2.elts) else None)
+                            return bool(vals_) and all(isinstance(v2, ast.Attribute) and v2.attr == "eMarks" for v2 in vals_)
+                        return False
                     if ds and all(emark(d) for d in ds):
                         return _GETLINES_WHY
                     params_ = [a_.arg for a_ in f.node.args.posonlyargs + f.node.args.args]
